@@ -1001,6 +1001,8 @@ Proof.
     + lia.
 Qed.
 
+Ltac len := unfold quoted; repeat (rewrite app_length || progress cbn [length]); lia.
+
 Lemma qfm_set_fresh : forall acc k v, ~ In k (map fst acc) -> qfm_set acc k v = acc ++ [(k, v)].
 Proof.
   induction acc as [|[k' v'] r IH]; intros k v H; simpl; auto.
@@ -1073,16 +1075,14 @@ Proof.
     { eapply view_app. simpl. simpl in Hv5. exact Hv5. }
     rewrite (view_at _ _ _ _ Hv6). cbn [bind].
     replace (ceq "}" ",") with false by reflexivity. rewrite ceq_refl.
-    f_equal. f_equal. unfold off4, off3, off1. simpl dump_members.
-    rewrite !app_length. simpl. rewrite !app_length. simpl. rewrite !app_length. simpl. lia.
+    f_equal. f_equal. unfold off4, off3, off1. cbn [dump_members app]. len.
   - (* a member followed by ",\n" *)
     unfold members_tail in Hv5. rewrite dump_members_cons in Hv5. cbn [app] in Hv5.
     rewrite (consume_ws_here s off4 ","%char _ eq_refl Hv5). cbn [bind].
     rewrite (view_at _ _ _ _ Hv5). cbn [bind]. rewrite ceq_refl.
     rewrite (IH k1 v1 (acc ++ [(k0, v)]) k d depth s (S off4) (ch_nl :: pad_of depth) rest); auto.
     + rewrite <- app_assoc. cbn [app]. f_equal. f_equal.
-      unfold off4, off3, off1. rewrite dump_members_cons.
-      rewrite !app_length. simpl. rewrite !app_length. simpl. rewrite !app_length. simpl. rewrite !app_length. simpl. lia.
+      unfold off4, off3, off1. rewrite dump_members_cons. len.
     + rewrite map_app. simpl. rewrite <- app_assoc. simpl. simpl in Hnd. exact Hnd.
     + constructor. reflexivity. apply pad_space.
     + apply view_S in Hv5. rewrite Hv5. unfold members_tail. rewrite <- ?app_assoc. simpl. rewrite <- ?app_assoc. reflexivity.
